@@ -475,6 +475,14 @@ def analysis_stream(rng, tier):
     A64 += [_mt.a_stp_pre(28, 27, -0x120), _mt.a_stp_pre(20, 19, -0x200), _mt.a_stp_pre(29, 30, -0x1f0), _mt.a_ldp_post(28, 27, 0x120),
             _mt.a_ldp_post(29, 30, 0x1f8), _mt.a_ldp_off(29, 30, 0x1f0), _mt.a_stp_off(29, 30, 0x1f8), _mt.a_sub_sp(0x3000), _mt.a_add_sp(0x3000),
             _mt.a_add_fp_sp(0x1f0), _mt.A_RET, _mt.A_RETAB, _mt.A_PACIBSP]
+    # the authenticated tail call of arm64e and its parts, loads / stores in the other pair orders and addressing modes
+    AUTH = [_mt.a_word(w) for w in (0xD50323FF, 0xCA1E07D0, 0xB6F00050, 0xD4388E20)]
+    A64 += AUTH + [_mt.a_word(0x14000013), _mt.a_word(0xD28836F0), _mt.a_word(0xD71F0870), _mt.a_word(0xD61F0200),
+                   _mt.a_ldp_post(30, 29, 16), _mt.a_ldp_off(30, 29, 16), _mt.a_ldp_post(30, 19, 16), _mt.a_ldp_post(29, 19, 16),
+                   _mt.a_stp_pre(30, 29, -16), _mt.a_word(0xF84107FE), _mt.a_word(0xF81F0FFE), _mt.a_word(0x29BF7BFD),
+                   _mt.a_word(0xA9BF7C1D), _mt.a_word(0xA9817BFD)]
+    SEQ = [b"".join(AUTH) + _mt.a_word(0x14000013), b"".join(AUTH) + _mt.a_word(0xD28836F0) + _mt.a_word(0xD71F0870),
+           b"".join(AUTH[:3]) + _mt.a_word(0x14000013), b"".join(AUTH) + _mt.a_word(0xD28836F0), b"".join(AUTH) + _mt.a_word(0xD28836E0) + _mt.a_word(0xD71F0870)]
     for arch, pool, gran in (("x86", X86, 1), ("a64", A64, 4)):
         for rep in range(2 if tier == "quick" else 30):
             s = Script(arch, "may")
@@ -493,7 +501,16 @@ def analysis_stream(rng, tier):
                     b = b"".join(rng.choice(pool) for _ in range(rng.range(1, 8))) + rng.choice(pool)[:1]
                 else:
                     b = bytes([rng.choice([0x40, 0x41, 0x48, 0x4c, 0xff, 0x0f, 0xe9, 0xeb])]) * rng.range(1, 6)
-                for off in {0, len(b), (len(b) // gran // 2) * gran, rng.below(len(b) + 1)}:
+                if arch == "a64" and k % 5 == 0:
+                    # whole and damaged authenticated tail calls behind some epilogue instructions
+                    b = b"".join(rng.choice(pool) for _ in range(rng.range(0, 3))) + rng.choice(SEQ) + b"".join(rng.choice(pool) for _ in range(rng.range(0, 2)))
+                if k % 7 == 3 and len(b) >= 4:
+                    # one flipped bit in one instruction word / byte: the neighbours of every recognised encoding
+                    bb = bytearray(b); i = rng.below(len(bb)); bb[i] ^= 1 << rng.below(8); b = bytes(bb)
+                offs = {0, len(b), (len(b) // gran // 2) * gran, rng.below(len(b) + 1)}
+                if arch == "a64" and k % 5 == 0:
+                    offs |= set(range(0, len(b) + 1, 4))
+                for off in offs:
                     for kind in ("pro", "epi", "both"):
                         s.add("analyze %s %s %d" % (kind, hexs(b), off), tag="analysis:%s:%s:%d" % (arch, kind, c))
             if rep == 0:
